@@ -7,7 +7,7 @@ ASSUMPTIONS = ['each shared access between two synchronisation calls is atomic (
 
 
 def main(tier, seed, replay=None):
-    ck, ok = CC.run_property("C03", tier, seed, replay, ['produce', 'produce', 'consume_eof', 'consume_eof', 'consume', 'produce_raise', 'halfclose'], lambda s: s.startswith(('no-repeated-EOFError', 'concurrent-receivers-do-not', 'waitclose-', 'closing-side-state', 'peer-state-after-observed-close', 'items-before-', 'after-exec-end', 'items-differ', 'items-lost', 'close-from-send-only', 'halfclose-', 'items-sent-in-send-only', 'after-remote-error')), None, ASSUMPTIONS, extra=EXTRA)
+    ck, ok = CC.run_property("C03", tier, seed, replay, ['produce', 'produce', 'consume_eof', 'consume_eof', 'consume', 'produce_raise', 'halfclose'], lambda s: s.startswith(('no-repeated-EOFError', 'concurrent-receivers-do-not', 'waitclose-', 'closing-side-state', 'peer-state-after-observed-close', 'items-before-', 'after-exec-end', 'items-differ', 'items-lost', 'close-from-send-only', 'halfclose-', 'items-sent-in-send-only', 'after-remote-error', 'end-of-exec-drop')), None, ASSUMPTIONS, extra=EXTRA)
     try:
         from props import chan_model
 
@@ -15,9 +15,10 @@ def main(tier, seed, replay=None):
         chan_model.link_correspondence(ck, ok, tier, replay)
         if not replay:
             after_exit(ck, tier)
+            drop_at_end_of_exec(ck, tier)
     except ImportError:
         pass
-    return ck.finish(rule='generated send/close histories: worker or initiator sends k items then closes explicitly, ends its remote_exec, or drops its last reference, with one or two blocked receivers and waitclose callers on the other side; random/PCT schedules with line-level preemption. distinct = distinct (program, schedule prefix).')
+    return ck.finish(rule='generated send/close histories: worker or initiator sends k items then closes explicitly, ends its remote_exec, or drops its last reference, with one or two blocked receivers and waitclose callers on the other side; random/PCT schedules with line-level preemption; plus real idle worker processes whose body holds further channels and ends normally or by seven kinds of exception (the drop at the end of the exec must reach the peer: items, then EOFError, waitclose returning). distinct = distinct (program, schedule prefix).')
 
 
 def after_exit(ck, tier):
@@ -64,6 +65,82 @@ def after_exit(ck, tier):
     ck.case(("close-racing-exit",), nontrivial=True)
     if bad:
         ck.fail("closing-side-state-wrong:close-racing-gateway-exit", {"observed": list(map(str, bad))})
+
+
+W_HOLDS_SUBCHANNELS = """
+subs = [channel.gateway.newchannel() for i in range(%(n)d)]
+keep = {"elsewhere": list(subs)}
+for s in subs:
+    channel.send(s)
+for i, s in enumerate(subs):
+    for x in range(%(k)d):
+        s.send((i, x))
+%(end)s
+"""
+
+
+def drop_at_end_of_exec(ck, tier):
+    """real worker processes (idle afterwards: nothing but reference counting frees anything there): a body that holds further
+    channels in its namespace sends items on them and ENDS -- normally or by an exception of several kinds -- without closing
+    them; the end of the body drops the last references, so the initiator gets every item and then EOFError on each of them
+    (bodies without function / class definitions: those keep their namespace alive through a reference cycle, see DESIGN)"""
+    import threading
+
+    import execnet
+    from props import xport as X
+
+    ends = {"normal": "pass", "raise": "raise ValueError('boom')", "zerodiv": "1 / 0", "lookup": "{}['missing']", "sysexit": "raise SystemExit(3)",
+            "nested": "keep['elsewhere'][0].gateway.no_such_attribute", "assert": "assert not subs"}
+    for em in ("thread", "main_thread_only"):
+        st, gw = X.with_timeout(lambda: execnet.makegateway("popen//execmodel=%s" % em), 40)
+        if st != "ok":
+            ck.broke("correspondence", "end-of-exec-probe-gateway-does-not-start", em)
+            continue
+        try:
+            for name, end in ends.items():
+                for n, k in ((1, 2), (2, 0)) if tier == "quick" else ((1, 0), (1, 3), (2, 2), (3, 1)):
+                    ex = {"execmodel": em, "end": name, "subchannels": n, "items_each": k}
+                    ck.case(("end-of-exec-drop", em, name, n, k), nontrivial=True)
+                    ck.count("end_of_exec_drop_probes")
+                    ch = gw.remote_exec(W_HOLDS_SUBCHANNELS % {"n": n, "k": k, "end": end})
+                    try:
+                        subs = [ch.receive(10) for _ in range(n)]
+                    except Exception as e:  # noqa
+                        ck.fail("end-of-exec-drop:subchannels-do-not-arrive:" + type(e).__name__, ex)
+                        continue
+                    waits = []
+
+                    def waiter(c=subs[0]):
+                        try:
+                            c.waitclose(8)
+                            waits.append("returned")
+                        except Exception as e:  # noqa
+                            waits.append(type(e).__name__)
+
+                    th = threading.Thread(target=waiter, daemon=True)
+                    th.start()
+                    for i, sub in enumerate(subs):
+                        got, endk = [], None
+                        try:
+                            while 1:
+                                got.append(sub.receive(8))
+                        except Exception as e:  # noqa
+                            endk = type(e).__name__
+                        if got != [(i, x) for x in range(k)]:
+                            ck.fail("items-before-close-lost:end-of-exec-drop", {**ex, "got": repr(got)[:100]})
+                        if endk != "EOFError":
+                            ck.fail("end-of-exec-drop-not-observed-by-the-peer:%s:%s" % (name, endk), ex)
+                            break
+                    th.join(10)
+                    if waits != ["returned"]:
+                        ck.fail("waitclose-after-end-of-exec-drop:%s" % (waits or ["blocked"])[0], ex)
+                    try:
+                        ch.waitclose(10)
+                    except Exception:  # noqa  (the body's own error, reported on its channel: C07)
+                        pass
+        finally:
+            gw.exit()
+            X.with_timeout(lambda: gw.join(5), 10)
 
 
 EXTRA = None
